@@ -454,7 +454,7 @@ impl<A: Send + 'static> Stream<A> {
                             let s = s.unwrap();
                             s._send(firing.clone());
                             let node = s.box_clone();
-                            sodium_ctx.post(move || {
+                            sodium_ctx.pre_post(move || {
                                 let deps;
                                 {
                                     let dependencies = node.data().dependencies.read();
